@@ -4,8 +4,8 @@ from harness import core, pipelib
 
 ID = 'C01'
 MODULE = 'Gpv.Props.C01'
-MODULES = ['Gpv.Props.C01', 'Gpv.Props.C13Stage']
-THEOREMS = core.theorems('C01', 'C13Stage')
+MODULES = ['Gpv.Props.C01', 'Gpv.Props.C13Stage', 'Gpv.Props.C01Ship']
+THEOREMS = core.theorems('C01', 'C13Stage', 'C01Ship')
 RULE = ('scenario = (nworkers 0-4, extracache 0-3, skipNone, maxtasksperchild, function kind module/lambda/closure, kwargs, '
         'per-element outcome table over unique values, None and a zoo of falsy/array/hostile values); free-running and forced '
         'worker schedules (a controller process releases per-element semaphores in a prescribed priority order, bursts included); '
@@ -83,6 +83,8 @@ def gen_cases(ctx):
         c['demand'] = ['N*']
         if c['label'] != 'corpus' and rng.random() < 0.3:
             c['hint'] = rng.choice(pipelib.HINTS)      # the source also has a __length_hint__, right or wrong
+        if c['label'] != 'corpus' and rng.random() < 0.2:
+            c['library_warnings_are_errors'] = True    # as under `python -W error`: a warning the library raises is an exception
     return cases
 
 
@@ -268,6 +270,54 @@ def _run_variant(kind, nworkers, extracache, skipNone, n, how):
     return dict(copy=list(P(iter(range(n)))), original=first)
 
 
+def _ship_attrs(nw, ec, skip, verbose, mtpc, pre, how):
+    """the attributes of a stage after a trip through pickle / dill / copy (runs in a forked child)"""
+    import copy
+    import pickle
+    import dill
+    from generatorpipeline import pipeline
+    P = pipeline(nw, extracache=ec, skipNone=skip, verbose=verbose, maxtasksperchild=mtpc)(_g_keep)
+    P.el_processed, P.el_yielded = pre
+    Q = {'copy': copy.copy, 'deepcopy': copy.deepcopy, 'pickle': lambda o: pickle.loads(pickle.dumps(o)),
+         'dill': lambda o: dill.loads(dill.dumps(o))}[how](P)
+    show = lambda o, a: ('-' if not hasattr(o, a) else getattr(o, a))       # noqa
+    return dict(nworkers=show(Q, 'nworkers'), cachelen=show(Q, 'cachelen'), verbose=show(Q, 'verbose'), skipNone=show(Q, 'skipNone'),
+                maxtasksperchild=show(Q, 'maxtasksperchild'), processed=show(Q, 'el_processed'), yielded=show(Q, 'el_yielded'),
+                same_function=getattr(Q, 'func', None) is _g_keep or getattr(getattr(Q, 'func', None), '__name__', None) == '_g_keep',
+                original=(P.nworkers, P.cachelen, P.verbose, P.skipNone, P.maxtasksperchild, P.el_processed, P.el_yielded))
+
+
+def ship_cases(ctx):
+    """what crosses a process boundary: the model's `ship` (Model/Ship.lean, theorems C01Ship.*) against the real __getstate__/__setstate__"""
+    rng = ctx.rng
+    lines, metas = [], []
+    for _ in range(ctx.scale(10, 60)):
+        nw, ec, skip, verbose = rng.choice([0, 1, 3]), rng.choice([0, 2]), rng.random() < 0.5, rng.random() < 0.5
+        mtpc = rng.choice([None, 1, 5])
+        pre = (rng.randint(0, 9), 0)
+        pre = (pre[0], rng.randint(0, pre[0]))
+        how = rng.choice(['copy', 'deepcopy', 'pickle', 'dill'])
+        case = dict(shipped=how, nworkers=nw, extracache=ec, skipNone=skip, verbose=verbose, maxtasksperchild=mtpc, counters=list(pre))
+        ctx.case(('ship', how, nw, ec, skip, verbose, mtpc, pre), not skip or verbose, sample=case)
+        ctx.count('shipped_stage:' + how)
+        st, r = pipelib.isolated(_ship_attrs, (nw, ec, skip, verbose, mtpc, pre, how), timeout=30)
+        if st != 'ok':
+            ctx.fail('variant-stage-raises', 'a stage cannot go through %s: %s %s' % (how, st, str(r)[-300:]), case)
+            continue
+        if r['skipNone'] != skip or r['verbose'] != verbose or (r['processed'], r['yielded']) != pre or not r['same_function'] \
+                or r['original'] != (nw, nw + ec, verbose, skip, mtpc, pre[0], pre[1]):
+            ctx.fail('shipped-stage-loses-configuration', 'after %s: %s (the stage was made with skipNone=%s verbose=%s counters=%s)' % (how, r, skip, verbose, pre), case)
+            continue
+        lines.append('pipe.ship %d %d %d %d %s %d %d' % (nw, ec, 1 if skip else 0, 1 if verbose else 0, '-' if mtpc is None else mtpc, pre[0], pre[1]))
+        f = lambda v: '-' if v == '-' else ('None' if v is None else (str(int(v)) if not isinstance(v, bool) else str(int(v))))     # noqa
+        metas.append((case, 'nworkers=%s cachelen=%s verbose=%s skipNone=%s maxtasksperchild=%s processed=%s yielded=%s' % (
+            f(r['nworkers']), f(r['cachelen']), f(r['verbose']), f(r['skipNone']), f(r['maxtasksperchild']), f(r['processed']), f(r['yielded']))))
+    mout = core.run_driver(lines) if lines else []
+    for (case, impl), ml in zip(metas, mout):
+        if impl != ml:
+            ctx.disagree('shipped-stage-equals-model', case, impl, ml)
+
+
 def variant_cases(ctx):
     rng = ctx.rng
     for _ in range(ctx.scale(24, 120)):
@@ -360,6 +410,7 @@ def check(ctx):
             judge(ctx, c, r, m)
     chain_cases(ctx)
     variant_cases(ctx)
+    ship_cases(ctx)
     from harness.props import multistream
     multistream.run(ctx, ctx.scale(40, 400), {'outputs'}, 'multi-C01')
 
@@ -375,6 +426,9 @@ def replay(ctx, data):
         return
     if 'variant' in case:
         variant_cases(ctx)
+        return
+    if 'shipped' in case:
+        ship_cases(ctx)
         return
     for c, r, m in execute([case], workers=1):
         with ctx.guard(c):
